@@ -246,7 +246,8 @@ class Verdict:
         self.known[fid]["count"] += 1
 
     def finish(self):
-        os.makedirs(os.path.join(ROOT, "evidence"), exist_ok=True)
+        evdir = os.environ.get("VERIF_EVIDENCE_DIR") or os.path.join(ROOT, "evidence")   # mutant runs write elsewhere
+        os.makedirs(evdir, exist_ok=True)
         os.makedirs(os.path.join(OUT, "replay"), exist_ok=True)
         for fid, k in sorted(self.known.items()):
             log(f"KNOWN-FINDING: property={self.pid} {fid}: {k['what']} ({k['count']} occurrence(s) in this run)")
@@ -269,7 +270,7 @@ class Verdict:
         ev = {"property_id": self.pid, "tier": self.tier, "seed": seed(), "level": self.level,
               "coverage": cov, "assumptions": self.assumptions, "wall_s": round(time.time() - self.t0, 1),
               "violations": len(self.violations)}
-        with open(os.path.join(ROOT, "evidence", f"{self.pid}.json"), "w") as f:
+        with open(os.path.join(evdir, f"{self.pid}.json"), "w") as f:
             json.dump(ev, f, indent=1)
         log(f"{self.pid} [{self.tier}] states={cov['states']} transitions={cov['transitions']} "
             f"replayed={cov['traces_validated_against_impl']} violations={len(self.violations)} "
